@@ -35,6 +35,8 @@ def main():
         print("worktree failed"); return 2
     out = os.path.join(HOME, "refactorings", rid)
     os.makedirs(out, exist_ok=True)
+    if not os.path.exists(os.path.join(src, "patch.diff")):
+        src = out  # re-run of a stored refactoring (the sub-agent's scratch directory is gone)
     meta = dict(id=rid, kind="behaviour-preserving refactoring written by an independent sub-agent", repo_head=sh(["git", "-C", "/repo", "rev-parse", "--short", "HEAD"]).stdout.strip())
     prev = os.path.join(out, "meta.json")
     old = json.load(open(prev)) if os.path.exists(prev) else {}
@@ -65,7 +67,7 @@ def main():
         meta["alarms"] = sorted(c for c, v in meta["checks"].items() if v["exit"] != 0)
         meta["silent"] = not meta["alarms"]
         for f in ("patch.diff", "notes.md", "equiv.py"):
-            if os.path.exists(os.path.join(src, f)):
+            if os.path.exists(os.path.join(src, f)) and os.path.abspath(src) != os.path.abspath(out):
                 shutil.copy(os.path.join(src, f), os.path.join(out, f))
         json.dump(meta, open(os.path.join(out, "meta.json"), "w"), indent=1)
         print(json.dumps(dict(id=rid, baseline=meta["baseline_with_change"], alarms={c: meta["checks"][c]["signatures"][:3] or meta["checks"][c]["last_line"][:120] for c in meta["alarms"]})))
